@@ -122,6 +122,19 @@ func (w *World) onEmit(p *OutPkt) {
 	}
 	p.Frame = f
 
+	// SetDUP(n): the library transmits n extra byte-identical copies right after
+	// the original; they are what the application asked for, not repeats
+	if ep != nil && ep.Cfg.Dup > 0 {
+		h := fnvBytes(p.Data)
+		if h == ep.lastRaw && ep.dupRun < ep.Cfg.Dup {
+			ep.dupRun++
+			s.Stats.Probe("configured-duplicate")
+			logf("emit %s#%d len=%d configured duplicate %d/%d", key, p.Idx, len(p.Data), ep.dupRun, ep.Cfg.Dup)
+			return
+		}
+		ep.lastRaw, ep.dupRun = h, 0
+	}
+
 	// C09: fresh nonce, no identical datagrams
 	if !w.Ref.IsNull() {
 		nk := string(f.Nonce)
@@ -356,3 +369,5 @@ func (w *World) checkFEC(key string, p *OutPkt, f *Frame, wf *wireFlow, d, par i
 	wf.ParityOK++
 	s.Stats.Probe("fec-parity-verified")
 }
+
+func fnvBytes(b []byte) uint64 { return hashOf(b) }
